@@ -13,3 +13,6 @@ open IQE.Props.C35
 #print axioms C35_http_mode_vocabulary
 #print axioms C35_flight_mode_vocabulary
 #print axioms C35_unknown_mode_is_error
+#print axioms C35_bridge_http_vocabulary
+#print axioms C35_flight_mode_table
+#print axioms C35_bridge_flight_vocabulary
